@@ -424,6 +424,10 @@ def step_data(spec):
     Z = X if xdt == 'float64' else (X - X.mean(axis=0)) / (X.std(axis=0) + 1e-9)
     beta = np.round(r.uniform(-0.8, 0.8, p), 2) * (r.rand(p) < 0.6)
     lin = Z @ beta + (0.5 * Z[:, 0] * Z[:, -1] if p > 1 and r.rand() < 0.5 else 0)
+    if spec.get('rich'):
+        # every main effect AND every product term matters: a search that is any good selects (nearly) the whole expanded design
+        E = expand(Z, spec['order'])
+        lin = E @ (np.round(r.uniform(0.5, 0.9, E.shape[1]), 2) * r.choice([-1.0, 1.0], E.shape[1]))
     if spec['family'] == 'gaussian':
         y = np.round(1 + lin + r.normal(size=n), 3)
     elif spec['family'] == 'gaussian-log':
@@ -497,6 +501,9 @@ def gen_step_specs(ctx):
                       'fwd': rng.random() < 0.5, 'design': rng.choice(['continuous', 'continuous', 'mixed']),
                       'dseed': rng.randint(0, 2 ** 31 - 1),
                       'xdtype': rng.choice(['float64', 'float64', 'float64', 'int8', 'uint8', 'int16'])})
+    for j in range(4 if ctx.quick else 24):
+        specs.append({'n': 150, 'p': 3, 'order': 1 + (j // 2) % 2, 'family': ['gaussian', 'gaussian', 'poisson'][j % 3], 'fwd': j % 2 == 0,
+                      'design': 'continuous', 'dseed': rng.randint(0, 2 ** 31 - 1), 'xdtype': 'float64', 'rich': True})
     if not ctx.quick:
         specs.append({'n': 60, 'p': 4, 'order': 2, 'family': 'gaussian', 'fwd': False, 'design': 'continuous', 'dseed': rng.randint(0, 2 ** 31 - 1)})
     return specs
@@ -535,6 +542,8 @@ def check_step(ctx, specs, fails):
         ctx.count('step:family=' + spec['family'])
         ctx.count('step:direction=' + ('forward' if spec['fwd'] else 'backward'))
         ctx.count('step:order=%d' % spec['order'])
+        if spec.get('rich'):
+            ctx.count('step:every expanded term carries signal (%s)' % ('forward' if spec['fwd'] else 'backward'))
         ctx.count('step:columns=%d' % ncol)
         ctx.count('step:design=' + spec['design'])
         ctx.count('step:X dtype=' + spec.get('xdtype', 'float64'))
